@@ -171,11 +171,13 @@ impl Visitor<Diagnostic> for LibraryRenderer {
         &mut self,
         node: &CharacterStringLiteral,
     ) -> Result<Self::Value, Diagnostic> {
-        // TODO this may not be right
-        let mut val = String::from("'");
+        // The literal does not keep which quote it was written with. A single quote
+        // in the text can only come from a double quoted literal.
+        let quote = if node.value.contains(&'\'') { '"' } else { '\'' };
+        let mut val = String::from(quote);
         let s: String = node.value.iter().collect();
         val.push_str(s.as_str());
-        val.push('\'');
+        val.push(quote);
         self.write_ws(&val);
         Ok(())
     }
